@@ -6,7 +6,7 @@ CONSTANTS
   BlockChoices <- NoBlocks
   MaxPert = 1
   EmitAt = 1000
-  Scenarios = {1, 2, 3, 4}
+  Scenarios = {1, 2, 3, 4, 5}
 INIT GInit
 NEXT GNextC
 INVARIANT StateIsFunctionOfHistory
